@@ -104,6 +104,15 @@ var headers = []string{
 	"on: push\npermissions:\n  contents: read\nconcurrency:\n  group: ${{ github.ref }}\n",
 }
 
+// Whole-workflow tie-makers (layouts the block-style fragments cannot express).
+var tieWorkflows = []string{
+	// flow-style jobs wrapped over several lines: job positions are anti-correlated in line and column
+	"on: push\njobs: {zz-late-col: {needs: [b], runs-on: ubuntu-latest, steps: [{run: echo}]},\n  b: {needs: [c], runs-on: ubuntu-latest, steps: [{run: echo}]},\n c: {needs: [zz-late-col], runs-on: ubuntu-latest, steps: [{run: echo}]}}\n",
+	"on: push\njobs: {first: {runs-on: ubuntu-latest, steps: [{run: echo}]},            p: {needs: [q], runs-on: ubuntu-latest, steps: [{run: echo}]},\n  q: {needs: [p], runs-on: ubuntu-latest, steps: [{run: echo}]},\n    r: {needs: [r, ghost1, ghost2], runs-on: ubuntu-latest, steps: [{run: echo}]}}\n",
+	// two steps with duplicate ids and two jobs with case-insensitively equal ids in flow style
+	"on: push\njobs:\n  j: {runs-on: ubuntu-latest, steps: [{id: a, run: echo}, {id: A, run: echo},\n    {id: a, run: echo}]}\n",
+}
+
 // Tie-making headers: >= 2 diagnostics at one position from the header itself.
 var tieHeaders = []string{
 	"on:\n  issues:\n    types: [bogus, nonsense]\n",
